@@ -1,9 +1,26 @@
 package main
 
+import (
+	"golang.org/x/tools/go/ssa"
+	"golang.org/x/tools/go/ssa/ssautil"
+)
+
 // Built-in (non-contract) checks registered per property.
 
 func builtinChecks(e *Engine, prop, tier string) []*groupResult {
+	switch prop {
+	case "C10":
+		gs, assumed := frameChecks(e)
+		for _, a := range assumed {
+			e.x.note(a)
+		}
+		return gs
+	}
 	return nil
+}
+
+func ssautilAllFunctions(prog *ssa.Program) map[*ssa.Function]bool {
+	return ssautil.AllFunctions(prog)
 }
 
 
